@@ -1,47 +1,26 @@
 //! Scratch experiments (not a registered check).
 use serde_json::json;
-use crate::hist::{self, Ctx, Driver, Enc, Op, Target};
+use crate::hist::{self, Driver, Op};
 use crate::rpc::Inst;
-use crate::asm;
 
 pub fn run() {
-    crate::setup_env("regtest", true);
+    let net = std::env::var("EXP_NET").unwrap_or("signet".into());
+    let n: u64 = std::env::var("EXP_N").ok().and_then(|x| x.parse().ok()).unwrap_or(10_000);
+    crate::setup_env(&net, true);
     let dir = crate::rpc::fresh_dir("exp");
     let mut d = Driver::new(Inst::open(&dir).unwrap());
-    d.exec(Op::Init { hash: hist::ZERO_HASH.into(), ts: 1, height: 0 });
-    let pk1 = "5120a1a1a1a1a1a1a1a1a1a1a1a1a1a1a1a1a1a1a1a1a1a1a1a1a1a1a1a1a1a1a1".to_string();
-    let pk2 = "5120a2a2a2a2a2a2a2a2a2a2a2a2a2a2a2a2a2a2a2a2a2a2a2a2a2a2a2a2a2a2a2".to_string();
-    let a2 = hist::pk_address(&pk2);
-    let h = crate::hist::bh((0xe1u64) as u64);
-    let mut i = 0u64;
-    let mut tx = |d: &mut Driver, name: &str, op: Op| {
-        let r = d.exec(op);
-        let rc = hist::receipts_in(&r);
-        println!("{:28} {}", name, rc.first().map(|x| format!("status={} gas={}", x["status"], x["gasUsed"])).unwrap_or(r.short()));
-    };
-    let c = |i: &mut u64| { let v = *i; *i += 1; Ctx { ts: 5, hash: h.clone(), idx: v } };
-    tx(&mut d, "deposit pk1 100", Op::Deposit { pk: pk1.clone(), ticker: "ORDI".into(), amount: "0x64".into(), ctx: c(&mut i), iid: "e1".into() });
-    let call = |pk: &str, data: Vec<u8>, ctx: Ctx, iid: &str, to: &str| Op::Call { pk: pk.to_string(), target: Target::Addr(to.to_string()), data: Some(hist::hx(&data)), enc: Enc::Hex, ctx, iid: iid.into(), len: 1_000_000, txid: hist::ZERO_HASH.into() };
-    tx(&mut d, "pk1 controller.transfer 10", call(&pk1, hist::controller_transfer(b"ordi", &a2, 10), c(&mut i), "e2", hist::CONTROLLER));
-    {
-        let last = d.log.last().unwrap().1.clone();
-        let th = hist::receipts_in(&last)[0]["transactionHash"].clone();
-        let t = d.inst.call("debug_traceTransaction", json!([th]));
-        println!("trace: {}", t.to_json().to_string().chars().take(1500).collect::<String>());
+    let t = std::time::Instant::now();
+    let mut left = n;
+    while left > 0 {
+        let k = left.min(50_000);
+        let r = d.exec(Op::Mine { n: k, ts: 7 });
+        if !r.is_ok() { println!("mine: {}", r.short()); break; }
+        left -= k;
+        d.exec(Op::Commit);
     }
-    let ctrl = hist::parse_addr(hist::CONTROLLER);
-    tx(&mut d, "pk1 approve(ctrl,50)", call(&pk1, hist::abi_bytes_then_words("approve(bytes,address,uint256)", b"ordi", &[asm::word_addr(&ctrl), asm::word_u64(50)]), c(&mut i), "e2a", hist::CONTROLLER));
-    tx(&mut d, "pk1 controller.transfer 10", call(&pk1, hist::controller_transfer(b"ordi", &a2, 10), c(&mut i), "e2b", hist::CONTROLLER));
-    // user calls mint on controller
-    tx(&mut d, "pk1 controller.mint (adv)", call(&pk1, hist::abi_bytes_then_words("mint(bytes,address,uint256)", b"ordi", &[asm::word_addr(&a2), asm::word_u64(5)]), c(&mut i), "e3", hist::CONTROLLER));
-    // token address
-    let r = d.inst.call("eth_call", json!([{"to": hist::CONTROLLER, "data": hist::hx(&hist::abi_bytes_then_words("getTickerAddress(bytes)", b"ordi", &[]))}]));
-    println!("token {}", r.short());
-    let cnt = i; 
-    d.exec(Op::Finalise { ts: 5, hash: h.clone(), count: cnt });
-    println!("bal1 {}", d.inst.call("brc20_balance", json!({"pkscript": pk1, "ticker": "ordi"})).short());
-    println!("bal2 {}", d.inst.call("brc20_balance", json!({"pkscript": pk2, "ticker": "Ordi"})).short());
-    let r = d.inst.call("eth_call", json!([{"to": hist::CONTROLLER, "data": hist::hx(&hist::abi_bytes_then_words("getTickerAddress(bytes)", b"ordi", &[]))}]));
-    println!("token {}", r.short());
+    println!("mined {} in {:?}; height {}", n, t.elapsed(), d.inst.call("eth_blockNumber", json!([])).short());
+    let r = d.exec(Op::Init { hash: hist::ZERO_HASH.into(), ts: 9, height: n });
+    println!("init at {}: {}", n, r.short());
+    println!("dir size: {:?}", std::process::Command::new("du").arg("-sh").arg(&dir).output().map(|o| String::from_utf8_lossy(&o.stdout).to_string()));
     crate::rpc::remove_dir(&crate::rpc::process_work_dir("exp"));
 }
